@@ -188,7 +188,11 @@ def run(ctx):
     samples = []
 
     # ---- totality on dumps: every object x trusted subsets x show x colours x both sinks -----------------------
-    for name, obj in zoo():
+    from .. import objgen
+
+    g = objgen.G(ctx.rng)
+    generated = [(f"gen{i}", g.value(0, supported=True)[0]) for i in range(ctx.budget(60, 2500))]
+    for name, obj in list(zoo()) + generated:
         try:
             data = dumps(obj)
         except Exception:
@@ -204,7 +208,7 @@ def run(ctx):
                             visualize(data, show=show, trusted=T, use_colors=colors)
                     except Exception as ex:
                         ofails.append((f"not-total: visualize(dump of {name}, show={show!r}, trusted={T!r}) raised {type(ex).__name__}: {str(ex)[:80]}",
-                                       dict(kind="dump", object=name, show=show, trusted=T)))
+                                       dict(kind="dump", object=name, repr=repr(obj)[:600], show=show, trusted=T)))
                         break
             try:
                 got = impl_rows(data, T)
